@@ -12,6 +12,8 @@ pub fn instances(tier: &str) -> Vec<String> {
     for r in 0..=pmax { for k in 0..=pmax { for c in 0..=pmax { v.push(format!("prod:r={},k={},c={}", r, k, c)); } } }
     let nmax = if tier == "thorough" { 4 } else { 3 };
     for r in 0..=nmax { for c in 0..=nmax { v.push(format!("norms:r={},c={}", r, c)); } }
+    // element-wise arithmetic is ONE IEEE operation per entry (props/fparith.rs)
+    v.push("fp_arith:of=matrix,r=2,c=3".into());
     v
 }
 
